@@ -133,7 +133,10 @@ Definition read_paths : list (string * list string) :=
 
 Inductive why := Locked | OutOfClaim.
 
-(* every write site that may exist in a function reachable on a read path: (function, location, held, why) *)
+(* every write site that may exist in a function reachable on a read path: (function, location, held, why).
+   The translator also records, as a write of "escape:T.f", every return statement that hands the slice or map
+   stored in field T.f to the caller instead of a copy: a reader that sorts or overwrites its own result would
+   write the shared processed set.  No read accessor may do that, so no such entry is allowed here. *)
 Definition write_allow : list (string * loc * held * why) :=
   [ (* memo of the namespace lookup, stored under nsMu *)
     ("Modules.FindModuleByNamespace", "Modules.byNS", [("Modules.nsMu", MX)], Locked);
